@@ -22,6 +22,46 @@ from sa import core  # noqa: E402
 CLAIMED = ["C02", "C05", "C06", "C08", "C09", "C10", "C12", "C15", "C16", "C17", "C19", "C20"]
 
 
+EXPORTED = {          # the public names through which each property is observed (a5/__init__.py)
+    "C02": ["cell_to_lonlat", "lonlat_to_cell"], "C05": ["get_resolution", "cell_to_children", "cell_to_parent", "get_res0_cells"],
+    "C06": ["cell_to_children", "cell_to_parent", "get_res0_cells"], "C08": ["compact"], "C09": ["compact"], "C10": ["uncompact"],
+    "C12": ["cell_to_boundary"], "C15": [], "C19": ["hex_to_u64", "u64_to_hex"], "C20": ["get_num_cells", "cell_area", "cell_to_children", "uncompact", "get_res0_cells"],
+    "C16": ["cell_to_boundary", "cell_to_lonlat", "lonlat_to_cell", "hex_to_u64", "u64_to_hex", "cell_to_parent", "cell_to_children",
+            "get_resolution", "get_res0_cells", "get_num_cells", "cell_area", "compact", "uncompact"],
+}
+EXPORTED["C17"] = EXPORTED["C16"]
+
+
+def _exported_as_analysed(ctx, prop: str) -> None:
+    """The rules analyse the functions of a5.core.*; users call what a5/__init__.py exports.  If an exported name is no longer a
+    plain import of the core function (a wrapper or another object defined in a5/__init__.py), what the rules decided says
+    nothing about the exported function: an undecided obligation, never a silent pass."""
+    import ast as _ast
+    from sa import core as _core
+    try:
+        tree = ctx.sources.tree("a5/__init__.py")
+    except _core.AnalysisError:
+        return
+    imported, defined = set(), {}
+    for n in tree.body:
+        if isinstance(n, _ast.ImportFrom):
+            for a in n.names:
+                imported.add(a.asname or a.name)
+        elif isinstance(n, (_ast.FunctionDef, _ast.ClassDef)):
+            defined[n.name] = n
+        elif isinstance(n, (_ast.Assign, _ast.AnnAssign)):
+            for t in (n.targets if isinstance(n, _ast.Assign) else [n.target]):
+                if isinstance(t, _ast.Name):
+                    defined[t.id] = n
+    for name in EXPORTED.get(prop, []):
+        if name in defined:
+            n = defined[name]
+            ctx.unk(f"{prop}.0", f"a5.{name} is defined in a5/__init__.py, not imported from a5.core", f"a5/__init__.py:{n.lineno}",
+                    "the obligations above are about the core function; what the exported wrapper does with arguments and results is not analysed")
+        elif name not in imported:
+            ctx.unk(f"{prop}.0", f"a5.{name} is not exported by a5/__init__.py as an import", "a5/__init__.py", "the public name the property is observed through was not found")
+
+
 def main(argv=None) -> int:
     ap = argparse.ArgumentParser(prog="check")
     ap.add_argument("prop")
@@ -53,6 +93,7 @@ def main(argv=None) -> int:
             if not isinstance(e_, (_Budget, _Unm, RecursionError)):
                 raise
             ctx.unk(f"{prop}.0", f"analysis stopped: {type(e_).__name__}", "", f"{e_}: the obligations not listed above are not decided")
+        _exported_as_analysed(ctx, prop)
         if args.tier == "thorough" and not args.no_selftest and not os.environ.get("A5_NO_SELFTEST") and not args.replay:
             # self-validation battery on scratch copies of the current tree; never changes the exit code
             try:
